@@ -328,7 +328,7 @@ func (g *G) classes() []genClass {
 	case "C04":
 		return []genClass{{8, vary}, {1, faults}, {1, backends}}
 	case "C07":
-		return []genClass{{8, inval}, {2, urls}}
+		return []genClass{{7, inval}, {2, urls}, {2, func(g *G, id string) *History { return g.genInvalRace(id) }}}
 	case "C08":
 		return []genClass{{4, vary}, {2, grid}, {3, chain}, {2, inval}}
 	case "C19":
